@@ -218,6 +218,16 @@ func c15Keys(r *mon.Rng) *model.Schema {
 		lit := mon.Pick(r, []string{`"a\/b"`, `"caf\u00e9"`, `"tab\u0009stop"`, `"q\u0022q"`, `"plain"`, `"\u0041BC"`})
 		s.Types = append(s.Types, &model.TypeDef{Name: "@ks", Root: &model.Node{Kind: model.KString, Lit: lit, KeyPos: -1}})
 		o.Props = append(o.Props, model.PShort("@ks", model.Int("1")))
+		if r.Bool() {
+			// next to the shortcut, an ordinary key spelled like the name of its type (a key like
+			// any other: the quotes tell them apart)
+			lit := model.P("@ks", model.Str("literal"))
+			if r.Bool() {
+				o.Props = append([]*model.Prop{lit}, o.Props...)
+			} else {
+				o.Props = append(o.Props, lit)
+			}
+		}
 	}
 	return s
 }
